@@ -11,9 +11,21 @@ GEN = {
     'C10': [('Gen_C10', 'props.t_C10')],
     'C11': [('Gen_C11', 'props.t_C11')],
     'C12': [('Gen_C12', 'props.t_C12')],
+    'C19': [('Gen_C19', 'props.t_C19')],
 }
 
-PROPS = sorted(GEN)
+# properties whose generated file is written by their own fail-closed emitter:
+# property id -> 'module:function' returning (ok, info); called with no arguments
+CUSTOM = {
+    'C07': 'props.t_C07:generate_for_make',
+}
+
+PROPS = sorted(set(GEN) | set(CUSTOM))
+
+
+def run_custom(pid):
+    mod, fn = CUSTOM[pid].split(':')
+    return getattr(importlib.import_module(mod), fn)()
 
 
 def targets_of(modname):
